@@ -869,6 +869,18 @@ def c07_battery(binary):
             if left:
                 devs.append({"cmd": tag, "temp_files_left": left[:3]})
             return r
+        # a program that leaves a by-product next to its private $IN copy (sed -i.bak, exiftool's _original): the per-run temp dir
+        # must still be gone afterwards
+        check("group --transform 'sed -i.bak 1d $IN' --in-place", ["group", "--transform", "sed -i.bak 1d $IN", "--in-place", root])
+        check("group --transform 'cp $IN $IN.side' (by-product next to the private copy)", ["group", "--transform", "sh -c 'cp $IN $IN.side; cat $IN'", root])
+        # the cache location must not depend on a relative / empty XDG_CACHE_HOME (the XDG spec says such values are ignored): run
+        # from inside the tree, a relative database path would create files there
+        for xdg in ("", "relcache", "./"):
+            saved = dict(env)
+            env["XDG_CACHE_HOME"] = xdg
+            check("group --cache with XDG_CACHE_HOME=%r, run from inside the tree" % xdg, ["group", "--cache", root])
+            env.clear()
+            env.update(saved)
         for tr in ("cat", "cat $IN", "cp $IN $OUT", "dd if=$IN of=$OUT", "truncate -s 4 $IN", "sh -c true $IN", "dd of=$IN count=0 status=none", "dd of=$OUT status=none"):
             writes_in = "truncate" in tr or "of=$IN" in tr          # the documented exception: such a program under --no-copy
             for extra in ([], ["--in-place"], ["--no-copy"] if "$IN" in tr and not writes_in else []):
